@@ -361,6 +361,65 @@ def notdef_family_section(ctx):
         compare_masters(ctx, case, out, sparse=(1, ["A"]))
 
 
+def two_sparse_layers_section(ctx):
+    """TWO sparse layers in one family: one holds the base `a` of the mixed composite `c` (so `c` is interpolated there), the
+    other holds only the unrelated glyph `b`.  A sparse master contains .notdef, the glyphs of its layer and what component
+    references tie to them -- nothing else -- and all masters stay compatible"""
+    import ufo2ft
+    from fontTools.designspaceLib import SourceDescriptor
+    rng = ctx.subrng("two-sparse")
+    for i in range(ctx.budget(6, 18)):
+        lib = ["ufoLib2", "defcon"][i % 2]
+        fn = ["compileInterpolatableTTFsFromDS", "compileInterpolatableOTFsFromDS", "compileVariableTTF"][(i // 2) % 3]
+
+        def glyphs(names, d):
+            box = lambda x0, x1, y1: [[(Fr(x0), Fr(0), "line"), (Fr(x1), Fr(0), "line"), (Fr(x1), Fr(y1), "line"), (Fr(x0), Fr(y1), "line")]]
+            gl = []
+            if "a" in names:
+                gl.append({"name": "a", "unicodes": [0x61], "width": Fr(500 + d), "contours": box(50, 400 + d, 500), "components": [], "anchors": []})
+            if "b" in names:
+                gl.append({"name": "b", "unicodes": [0x62], "width": Fr(520 + d), "contours": box(60, 420 + d, 700), "components": [], "anchors": []})
+            if "c" in names:
+                gl.append({"name": "c", "unicodes": [0x63], "width": Fr(600 + d), "contours": box(450 + d, 560 + d, 300), "anchors": [],
+                           "components": [("a", (Fr(1), Fr(0), Fr(0), Fr(1), Fr(10 + d // 10), Fr(0)))]})
+            return gl
+
+        def master(k):
+            d = 100 * k
+            return {"glyphs": glyphs("abc", d), "glyphOrder": ["a", "b", "c"], "kerning": {}, "groups": {}, "lib": {},
+                    "info": {"familyName": "Fam", "styleName": "Master%d" % k, "unitsPerEm": 1000, "ascender": 800, "descender": -200}}
+        masters = [master(0), master(3)]
+        ds, fonts = dsgen.make_designspace(rng, masters, lib)
+        order = [("L1", 400, "a"), ("L2", 650, "b")] if i % 2 == 0 else [("L2", 650, "b"), ("L1", 400, "a")]
+        for pos, (lname, loc, held) in enumerate(order):
+            layer = fonts[0].newLayer(lname)
+            tmp = build_font({"glyphs": glyphs(held, (loc - 100) // 8 * 3)}, lib)
+            gl = layer.newGlyph(held); gl.width = tmp[held].width; tmp[held].drawPoints(gl.getPointPen())
+            sd = SourceDescriptor()
+            sd.font, sd.layerName, sd.location, sd.name = fonts[0], lname, {"Weight": loc}, "master." + lname
+            sd.familyName, sd.styleName = "Fam", lname
+            ds.sources.insert(1 + pos, sd)
+        case = {"function": fn, "lib": lib, "variant": "two sparse layers: %s" % ", ".join("%s@%d holds %s" % o for o in order), "font": jsonable(masters[0])}
+        ctx.count(); ctx.klass("%s/two sparse layers" % fn); ctx.nontriv(("2sp", i, ctx.scale))
+        try:
+            if fn == "compileVariableTTF":
+                ufo2ft.compileVariableTTF(ds)
+                continue
+            res = getattr(ufo2ft, fn)(ds)
+        except Exception as e:
+            ctx.spec_failure(case, "%s raised %s: %s\n%s" % (fn, type(e).__name__, e, traceback.format_exc()[-1000:]))
+            continue
+        by_name = {sd.name: sd.font for sd in res.sources}
+        got = sorted(n for n in by_name["master.L2"].getGlyphOrder() if n != ".notdef")
+        if got != ["b"]:
+            ctx.spec_failure(dict(case, sparse_master_glyphs=got), "the master of the layer that holds only 'b' contains %r" % got)
+        got1 = sorted(n for n in by_name["master.L1"].getGlyphOrder() if n != ".notdef")
+        if not set(got1) <= {"a", "c"} or "a" not in got1:
+            ctx.spec_failure(dict(case, sparse_master_glyphs=got1), "the master of the layer that holds only 'a' contains %r" % got1)
+        outs = [sd.font for sd in res.sources]
+        compare_masters(ctx, case, outs)
+
+
 def per_master_filter_section(ctx):
     """masters whose libs name the SAME filter (one that has an interpolatable form) with DIFFERENT include / exclude lists:
     master 0 asks for composite B only, master 1 for B and C.  Whatever is decomposed must be decomposed in every master."""
@@ -409,6 +468,7 @@ def per_master_filter_section(ctx):
 def explore(ctx):
     per_master_filter_section(ctx)
     notdef_family_section(ctx)
+    two_sparse_layers_section(ctx)
     placeholders_section(ctx)
     nonmatching_section(ctx)
     import ufo2ft
